@@ -353,7 +353,7 @@ mod vk_iter {
         }
     }
 
-    // @harness name=iter_ledger_buffered props=C08,C15,C01,C03 kind=bounded bound="owning source of length <= 4; buffered chunk size 2; two pulls, first chunk consumed 0..=2 items, second 0..=2; then drop or into_seq_iter"
+    // @harness name=iter_ledger_buffered props=C08,C15,C01,C02,C03,C04 kind=bounded bound="owning source of length <= 4; buffered chunk size 2; two pulls, first chunk consumed 0..=2 items, second 0..=2; then drop or into_seq_iter"
     #[kani::proof]
     #[kani::unwind(7)]
     fn iter_ledger_buffered() {
@@ -373,9 +373,9 @@ mod vk_iter {
                 if let Some(mut ch) = buf.next() {
                     let b = ch.begin_idx;
                     let l = ch.values.len();
-                    assert!(l >= 1 && l <= 2 && b == 2 * round, "[C03 C01 iter-ledger-chunk] buffered chunks are consecutive runs of the source");
+                    assert!(l >= 1 && l <= 2 && b == 2 * round, "[C03 C01 C04 iter-ledger-chunk] buffered chunks are consecutive runs of the source");
                     let mut k = 0;
-                    while k < 2 { if k < take && k < l { let x = ch.values.next().unwrap(); assert!(x.0 == b + k, "[C01 C02 iter-ledger-contents] chunk elements are the source elements at begin + k"); delivered[b + k] = true; std::mem::forget(x); } k += 1; }
+                    while k < 2 { if k < take && k < l { let x = ch.values.next().unwrap(); assert!(x.0 == b + k, "[C01 C02 C04 iter-ledger-contents] chunk elements are the source elements at begin + k, in order"); delivered[b + k] = true; std::mem::forget(x); } k += 1; }
                     if take >= l { assert!(ch.values.next().is_none(), "[C03 iter-ledger-exact] the chunk yields exactly the announced number of elements (no stale element of the previous chunk)"); }
                     kani::cover!(round == 1 && take == 0 && l == 1, "short second chunk over a stale slot");
                 }
@@ -409,7 +409,7 @@ mod vk_iter {
                 assert!(b == base, "[C02 C03 iter-ledger-chunk] the chunk begins at the next position");
                 let l = ch.values.len();
                 let mut k = 0;
-                while k < 2 { if k < take && k < l { let x = ch.values.next().unwrap(); assert!(x.0 == b + k, "[C01 C02 iter-ledger-contents] chunk elements are the source elements at begin + k"); delivered[b + k] = true; std::mem::forget(x); } k += 1; }
+                while k < 2 { if k < take && k < l { let x = ch.values.next().unwrap(); assert!(x.0 == b + k, "[C01 C02 C04 iter-ledger-contents] chunk elements are the source elements at begin + k, in order"); delivered[b + k] = true; std::mem::forget(x); } k += 1; }
                 kani::cover!(l == 2 && take == 1, "chunk partly consumed");
             };
         }
